@@ -3,6 +3,7 @@ import NbioVerif.Lemmas.C10Measure
 import NbioVerif.Lemmas.C10Close
 import NbioVerif.Lemmas.C10Heap
 import NbioVerif.Lemmas.C10Client
+import NbioVerif.Lemmas.C10Pool
 import NbioVerif.Properties.C05
 /-! # C10 — HTTP exchanges end to end: one answer per request, in order, isolated
 
@@ -506,3 +507,77 @@ example : EnvOK {} exOps ∧ (run {} exOps).calls = [(0, .resp (some 0)), (1, .r
   decide
 
 end ClientFifo
+
+namespace ClientPool
+
+/-- **A ClientConn is in exactly one place**: after any sequence of requests entering `getConn`, callbacks
+    releasing their conn, waiter time-outs and conns being marked closed, every ClientConn created so far
+    is either in the free channel or handed to a request — never both, never twice — and nothing else
+    is in those lists. -/
+theorem c10_pool_one_place (max : Nat) (ops : List Op) :
+    let s := run max {} ops
+    (s.idle ++ s.busy).Perm (List.range s.count) ∧ s.idle.Nodup ∧ s.busy.Nodup ∧
+      (∀ c, c ∈ s.idle → c ∉ s.busy) := by
+  intro s
+  have hi := inv_run (max := max) ops (inv_init max)
+  have hn : (s.idle ++ s.busy).Nodup := (hi.conns.nodup_iff).mpr List.nodup_range
+  obtain ⟨h1, h2, h3⟩ := List.nodup_append.mp hn
+  exact ⟨hi.conns, h1, h2, fun c hc hb => h3 c hc c hb rfl⟩
+
+/-- **Per host at most `MaxConnsPerHost` ClientConns**, all accounted for: free + in use = created ≤ max.
+    In particular the free channel (capacity max) never overflows: `releaseConn`'s send, which runs
+    inside the callback under the ClientConn's mutex, cannot block. -/
+theorem c10_pool_bound (max : Nat) (ops : List Op) :
+    let s := run max {} ops
+    s.idle.length + s.busy.length = s.count ∧ s.count ≤ max ∧ s.idle.length ≤ max := by
+  intro s
+  have hi := inv_run (max := max) ops (inv_init max)
+  have hl : s.idle.length + s.busy.length = s.count := by
+    have := hi.conns.length_eq
+    simpa only [List.length_append, List.length_range] using this
+  have hb : s.count ≤ max := hi.bound
+  exact ⟨hl, hb, by omega⟩
+
+/-- **Every request is assigned to exactly one ClientConn, or waits, or failed with the time-out** —
+    exactly one of the three, once. -/
+theorem c10_pool_assigned_once (max : Nat) (ops : List Op) :
+    let s := run max {} ops
+    (s.assigned.map (·.1) ++ s.waiting ++ s.failed).Perm (List.range s.nreq) ∧
+      (s.assigned.map (·.1)).Nodup := by
+  intro s
+  have hi := inv_run (max := max) ops (inv_init max)
+  have hn : (s.assigned.map (·.1) ++ s.waiting ++ s.failed).Nodup := (hi.reqs.nodup_iff).mpr List.nodup_range
+  have h1 := (List.nodup_append.mp hn).1
+  exact ⟨hi.reqs, (List.nodup_append.mp h1).1⟩
+
+/-- **No request waits while a ClientConn is free or could be created.** -/
+theorem c10_pool_no_idle_wait (max : Nat) (ops : List Op) (h : (run max {} ops).waiting ≠ []) :
+    (run max {} ops).idle = [] ∧ (run max {} ops).count = max :=
+  (inv_run (max := max) ops (inv_init max)).wait h
+
+/-- **A ClientConn marked closed is reset before it carries a request**: the hand-over (`hc.Reset()`
+    in `Client.Do`) clears the mark, the ClientConn dials a new connection — the dead connection of a
+    ClientConn whose close has been noticed is never written to.  (A close that has *not* been noticed
+    yet when the next request is handed over is outside this statement: the request is written to the
+    dying connection and its callback gets an error, which the property allows.) -/
+theorem c10_pool_reset_before_use (s : St) (r c : Nat) : c ∉ (assign s r c).dead := by
+  simp [assign]
+
+/-- The exactly-once guarantee of the callbacks (`ClientFifo.c10_client_exactly_once`) is what the
+    pool rests on: a second release of the same ClientConn puts it into the free channel twice, and
+    two requests are then handed the same ClientConn at the same time. -/
+theorem c10_pool_double_release_counterexample :
+    let s1 := run 2 {} [.get, .release 0]
+    let s2 := run 2 (releaseUnchecked s1 0) [.get, .get]
+    s2.busy = [0, 0] ∧ s2.assigned = [(0, 0), (1, 0), (2, 0)] := by
+  decide
+
+/-- non-vacuity: three requests on a pool of two, the third waits and gets the first released conn,
+    which had been marked closed meanwhile and is reset -/
+example :
+    let s := run 2 {} [.get, .get, .get, .connClosed 1, .release 1, .release 0]
+    s.assigned = [(0, 0), (1, 1), (2, 1)] ∧ s.idle = [0] ∧ s.busy = [1] ∧ s.waiting = [] ∧
+      s.redials = [2] ∧ s.dead = [] := by
+  decide
+
+end ClientPool
